@@ -18,9 +18,9 @@ import (
 // (XCU 2.6.2), which is frozen here as the external oracle.
 
 type dtVal struct {
-	op                                         string
-	wordNil, wordEmpty                         bool
-	set, null, arith, nounset, special         bool
+	op                                 string
+	wordNil, wordEmpty                 bool
+	set, null, arith, nounset, special bool
 }
 
 func (v dtVal) String() string {
